@@ -16,7 +16,7 @@ import (
 func c18Run(c *runner.Ctx) {
 	r := c.R
 	w, err := gen.GenWorld(r, c.TmpDir, fmt.Sprintf("w%d", c.Idx), gen.WorldOpts{MaxDocs: 140, Jumbo: c.Idx%150 == 0})
-	if err != nil {
+	if w = usable(c, w, err); w == nil {
 		// merges/loads are other properties' business; DocsMatchingTerms can still be examined on a built segment alone
 		var docs []*model.MDoc
 		if c.Idx%150 == 0 {
